@@ -128,6 +128,9 @@ func infoScenarios(tier string) []*simScenario {
 	} {
 		sc := cloneScenario(b)
 		sc.Name = "info-" + b.Name
+		sc.Menu.Clients = append(append([]string(nil), sc.Menu.Clients...), "info")
+		sc.Menu.MaxClient = 2
+		sc.Menu.ClientNodes = nil
 		sc.Menu.Dups = false
 		sc.Menu.Cuts = false
 		sc.Menu.Timeouts = b.Menu.OrderCost
@@ -157,7 +160,7 @@ func init() {
 		}}
 	vkChecks["C15"] = func(args []string) int { return runSimCheck(c15, args) }
 	c19 := &simCheckSpec{Prop: "C19", Oracles: []string{"info"},
-		Scenarios: infoScenarios, Budget: budget, MustReach: []string{"commits"},
-		Assume: []string{"status is read from the node's fields while all its goroutines are parked (the values a GetInfo task executed at that instant would copy); the GetInfo task itself is exercised in scenario stress of C15"}}
+		Scenarios: infoScenarios, Budget: budget, MustReach: []string{"commits", "inforeports"},
+		Assume: []string{"after every transition the status is read from the node's fields while all its goroutines are parked (the values a GetInfo task executed at that instant would copy); in addition real GetInfo tasks are submitted as explorer events and successive reports of one incarnation are compared"}}
 	vkChecks["C19"] = func(args []string) int { return runSimCheck(c19, args) }
 }
